@@ -115,7 +115,7 @@ class Prop(BaseProp):
                 res.count("doc_on_impl_cases")
                 if rng.random() < 0.7:
                     mod.items.append(b.cpa())    # a later file-level call
-        lay = Layout(rng, comments=rng.choice([0.0, 0.2]), wild=rng.choice([0.0, 0.3]), case="random")
+        lay = Layout(rng, comments=rng.choice([0.0, 0.2]), wild=rng.choice([0.0, 0.3, 0.9]), case="random", docforms=rng.choice([0.0, 0.3]))
         text = render(mod, lay)
         settings = runner.make_settings(input={"function_parameter_name_strip_regex": fre,
                                                "macro_parameter_name_strip_regex": mre,
